@@ -16,14 +16,14 @@ func init() {
 				jobs = append(jobs, mkJob(fmt.Sprintf("oneshot-n%d", n), "H_C13_oneshot", "internal/xxh32", tags, P("n", n)))
 			}
 			for b := 0; b < 16; b++ {
-				jobs = append(jobs, mkJob(fmt.Sprintf("base-b%d", b), "H_C13_base", "internal/xxh32", tags, P("bufused", b)))
-				j := mkJob(fmt.Sprintf("stepsum-b%d", b), "H_C13_step_sum", "internal/xxh32", tags, P("bufused", b))
-				j.Artificial = true
-				jobs = append(jobs, j)
 				for m := 0; m <= M; m++ {
-					j := mkJob(fmt.Sprintf("stepwrite-b%d-m%d", b, m), "H_C13_step_write", "internal/xxh32", tags, P("bufused", b, "m", m))
-					j.Artificial = true
-					jobs = append(jobs, j)
+					if tier == "quick" && m > 18 && m%3 != 0 {
+						continue
+					}
+					for _, stripes := range []int{0, 1} {
+						j := mkJob(fmt.Sprintf("apistep-b%d-s%d-m%d", b, stripes, m), "H_C13_api_step", "internal/xxh32", tags, P("bufused", b, "stripes", stripes, "m", m, "extra", m%2, "m2", (m*7+b)%18))
+						jobs = append(jobs, j)
+					}
 				}
 			}
 			// public-API splits
@@ -46,7 +46,7 @@ func init() {
 			}
 			return []string{
 				fmt.Sprintf("one-shot ChecksumZero: every length 0..%d, all byte contents symbolic", N),
-				fmt.Sprintf("streaming, inductive step: pre-state arbitrary (4 lanes x 32 bit, 64-bit total, 16-byte carry buffer symbolic; buffered count 0..15 split), one Write of every length 0..%d with symbolic bytes; Sum32/Sum on every such state; base case zero value and Reset", M),
+				fmt.Sprintf("streaming, step from API-built states: Reset + Write of (0 or 16)+bufused symbolic bytes (bufused 0..15), byte counter then advanced by an arbitrary symbolic multiple of 16 below 2^62, one Write of every length 0..%d (quick: every length to 18, then every third) with symbolic bytes, optional empty Write, Sum32; then a second Write of 0..17 bytes and Sum32", M),
 				"public-API three-way splits of short inputs (all split points) incl. Sum and Reset-reuse",
 			}
 		},
